@@ -69,7 +69,9 @@ func TMerc(this *SR) (forward, inverse Transformer, err error) {
 			var g = 0.5 * (f - 1/f)
 			var temp = this.Lat0 + y/(this.A*this.K0)
 			var h = math.Cos(temp)
-			con = math.Sqrt((1 - h*h) / (1 + g*g))
+			// |sin(temp)|, not sqrt(1-h*h): next to the equator h rounds to 1
+			// and the latitude (a few centimetres of northing) was lost.
+			con = math.Abs(math.Sin(temp)) / math.Sqrt(1+g*g)
 			lat = asinz(con)
 			if temp < 0 {
 				lat = -lat
